@@ -288,7 +288,7 @@ impl<T: UciTx, H: Heuristic, M: MoveOrder> Search<T, H, M> {
 
         self.state.metrics.increment_duration(&self.state.elapsed());
 
-        (best_move.and_then(|vm| vm.mv).map(move_into_uci_move), self.state.ponder_move().map(move_into_uci_move))
+        (best_move.and_then(|vm| vm.mv).map(move_into_uci_move), uci_pv.and_then(|pv| pv.get(1).cloned()))
     }
 
     fn evaluate(&self, color: ColorBits, zobrist_pawn_hash: ZobristHash, legal_moves_remaining: bool) -> i32 {
